@@ -8,6 +8,7 @@ Op `pair_eval`: a base election and a perturbation of it, both evaluated by the 
   'approval'          PreConverted(ApprovalToSimpleVotes(), Plurality): kinds 'approve', 'new'
   'score_sum'         ScoreVoting('sum'): kinds 'raise', 'new'
   'bucklin'           PreferenceAddition(): kinds 'lift', 'new' (bullet ballot)
+  'bucklin_whole'     PreferenceAddition(split_equal_rankings=False): the same
   'copeland', 'minimax_wv', 'minimax_margins', 'schulze'
                       PreConverted(RankedToCondorcetVotes(), ...): kinds 'lift', 'new' (bullet ballot)
 
@@ -32,15 +33,18 @@ REQUIRED = ['ha_house_monotone', 'ha_house_monotone_general', 'ha_vote_monotone'
             'additive_winner_monotone', 'additive_winner_monotone_new', 'plurality_monotone_switch', 'plurality_monotone_new',
             'scorer_monotone', 'positional_monotone_lift', 'positional_monotone_new', 'approval_monotone_approve',
             'approval_monotone_new', 'score_sum_monotone_raise', 'score_sum_monotone_new',
-            'bucklin_monotone_lift', 'bucklin_monotone_bullet', 'copeland_monotone', 'minimax_monotone',
+            'bucklin_monotone_lift', 'bucklin_monotone_bullet', 'bucklin_default_monotone_lift',
+            'bucklin_default_monotone_bullet', 'copeland_monotone', 'minimax_monotone',
             'copeland_monotone_lift', 'copeland_monotone_bullet', 'minimax_monotone_lift', 'minimax_monotone_bullet']
 UNPROVED = ['schulze_monotone (beat-path strengths under Raised: needs the Floyd-Warshall correctness of widest_paths)',
-            'bucklin_monotone for split_equal_rankings=True on profiles WITH shared ranks (permutation expansion not modelled)']
+            'bucklin_default_monotone on profiles WITH shared ranks (the even split over the compatible strict orders is '
+            'modelled and checked by the correspondence and the oracle; the theorems cover split_equal_rankings=False and, for '
+            'the default, profiles without shared ranks)']
 NAMES = Names(prefix='c')
 PNAMES = Names(prefix='p')
 DIVISORS = ['d_hondt', 'sainte_lague', 'imperiali', 'danish', 'macau']
 POSITIONAL = ['borda', 'dowdall', 'geometric', 'modified_borda', 'fixed_top']
-BULLET_RULES = ['bucklin', 'copeland', 'minimax_wv', 'minimax_margins', 'schulze']
+BULLET_RULES = ['bucklin', 'bucklin_whole', 'copeland', 'minimax_wv', 'minimax_margins', 'schulze']
 RANKED_RULES = POSITIONAL + BULLET_RULES
 ALL_RULES = ['ha', 'plurality'] + POSITIONAL + ['approval', 'score_sum'] + BULLET_RULES
 
@@ -294,16 +298,40 @@ def ref_scores(rule, param, prof):
     return sc
 
 
-def ref_bucklin(prof):
-    """winner of Bucklin on ballots without shared ranks (None otherwise / no sole winner)"""
-    if any(isinstance(it, dict) for b, _ in prof for it in b) or not prof:
+def _linearize(b):
+    parts = []
+    for it in b:
+        if isinstance(it, dict):
+            parts.append([list(x) for x in itertools.permutations(it['set'])])
+        else:
+            parts.append([[it]])
+    return [sum(x, []) for x in itertools.product(*parts)]
+
+
+def ref_bucklin(prof, split=True):
+    """sole winner of Bucklin, or None.  split: a ballot with shared ranks is spread evenly over the strict orders
+    compatible with it; otherwise every member of a shared rank receives the whole weight"""
+    if not prof:
         return None
+    if split:
+        p2 = []
+        for b, s in prof:
+            lins = _linearize(b)
+            for l in lins:
+                for e in p2:
+                    if e[0] == l:
+                        e[1] += Fraction(s) / len(lins)
+                        break
+                else:
+                    p2.append([l, Fraction(s) / len(lins)])
+        prof = p2
     quota = sum(Fraction(s) for _, s in prof) / 2
     tot = {}
     for r in range(max(len(b) for b, _ in prof)):
         for b, s in prof:
             if r < len(b):
-                tot[b[r]] = tot.get(b[r], 0) + Fraction(s)
+                for c in (b[r]['set'] if isinstance(b[r], dict) else [b[r]]):
+                    tot[c] = tot.get(c, 0) + Fraction(s)
         over = {c: v for c, v in tot.items() if v > quota}
         if over:
             m = max(over.values())
@@ -315,7 +343,9 @@ def ref_bucklin(prof):
 def ref_winner(rule, param, prof):
     """the sole winner according to the reference computation, or None"""
     if rule == 'bucklin':
-        return ref_bucklin(prof)
+        return ref_bucklin(prof, True)
+    if rule == 'bucklin_whole':
+        return ref_bucklin(prof, False)
     if rule in ('copeland', 'minimax_wv', 'minimax_margins', 'schulze'):
         for w in all_cands(prof):
             if strict_first(rule, prof, w):
@@ -380,6 +410,8 @@ def _evaluator(rule, param):
         return vcard.ScoreVoting('sum')
     if rule == 'bucklin':
         return vseq.PreferenceAddition()
+    if rule == 'bucklin_whole':
+        return vseq.PreferenceAddition(split_equal_rankings=False)
     conv = vconv.RankedToCondorcetVotes()
     if rule == 'copeland':
         return vcore.PreConverted(conv, vcond.Copeland(second_order=bool(param)))
@@ -456,10 +488,7 @@ def nontrivial(case, obs):
 # model side
 
 def model_line(case):
-    c = strip_case(case)
-    if case['rule'] == 'bucklin' and _has_shared(case):
-        return None       # _decouple_equal_rankings (permutation expansion of shared ranks) is not modelled
-    return c
+    return strip_case(case)
 
 
 def _has_shared(case):
@@ -602,7 +631,7 @@ def gen_ranked(rng, rule, n_prof, limit=8):
     while made < n_prof and tries < n_prof * 30:
         tries += 1
         m = rng.randint(2, 4)
-        shared_p = 0.25 if rule != 'bucklin' else 0.1
+        shared_p = 0.25
         base = _rand_ranked(rng, m, shared_p)
         param = _param(rng, rule)
         w = ref_winner(rule, param, base)
@@ -838,7 +867,7 @@ def directed_cases():
     base = [[[0, 1, 2], '3'], [[1, 0, 2], '2'], [[2, 0, 1], '1'], [[1, {'set': [0, 2]}], '1'], [[2, 1], '1']]
     for rule in RANKED_RULES:
         param = {'borda': 1, 'geometric': 2, 'fixed_top': 2, 'copeland': 1}.get(rule)
-        b = base if rule != 'bucklin' else [x for x in base if not any(isinstance(it, dict) for it in x[0])]
+        b = base
         w = ref_winner(rule, param, b)
         if w is None:
             continue
@@ -850,6 +879,14 @@ def directed_cases():
     for c in ranked_moves('bucklin', None, base, 0):
         c['_tags'] += ['bucklin:premise', 'directed', 'bucklin_second_round']
         out.append(c)
+    # Bucklin: a shared-rank ballot whose split variants coincide with a ballot already present (fix 9fdccec)
+    base = [[[1, 0], '5'], [[{'set': [0, 1]}], '1'], [[0], '3']]
+    for rule in ('bucklin', 'bucklin_whole'):
+        w = ref_winner(rule, None, base)
+        if w is not None:
+            for c in ranked_moves(rule, None, base, w):
+                c['_tags'] += [f'{rule}:premise', 'directed', 'bucklin_split_collision']
+                out.append(c)
     # highest averages: exact quotient tie at the last seat, cap binding, previous gains
     cfg = {'divisor': 'd_hondt', 'first_coef': None, 'votes': [[0, '6'], [1, '3'], [2, '3']], 'n': 3, 'prev': [], 'max': []}
     out += [dict(c, _tags=c['_tags'] + ['directed', 'ha:tie_in_base']) for c in ha_pairs(cfg, [])]
@@ -914,7 +951,7 @@ def exhaustive_cases():
 REQUIRED_COUNTERS = (['ha:house', 'ha:votes', 'ha:caps', 'ha:prev_gains', 'ha:tie_in_base', 'plurality:new',
                       'plurality:switch', 'plurality:premise', 'approval:approve', 'approval:new', 'approval:premise',
                       'score_sum:raise', 'score_sum:new', 'score_sum:premise', 'minimax_unbeaten_after_move',
-                      'bucklin_second_round', 'lift_unranked', 'lift_out_of_shared', 'unit_of_heavier_ballot',
+                      'bucklin_second_round', 'bucklin_split_collision', 'lift_unranked', 'lift_out_of_shared', 'unit_of_heavier_ballot',
                       'merges_with_existing', 'fractional_weight']
                      + [f'{r}:{k}' for r in RANKED_RULES for k in ('lift', 'new', 'premise')])
 
@@ -926,8 +963,8 @@ RULE = ('highest averages: 1-5 parties, five divisors (+ modified first coeffici
         '<=3 candidates x <=3 strict ballots x 10 ranked rules, every lift and every new ballot). Non-trivial = base '
         'result is the sole winner w (winner rules) / at least two parties and a non-error base (ha).')
 EXHAUSTIVE = {'thorough': True}
-NOT_VERIFIED = ['PreferenceAddition._decouple_equal_rankings (permutation expansion of shared ranks for Bucklin) is not '
-                'modelled: Bucklin cases with shared ranks are checked by the oracle on the implementation only',
+NOT_VERIFIED = ['PreferenceAddition._decouple_equal_rankings is modelled (decouple/linearize) and tied to the code by the '
+                'correspondence, but the Bucklin theorems cover profiles without shared ranks and split_equal_rankings=False',
                 'ScoreVoting("sum"): the per-candidate {score: count} tables, their expansion into a list and builtin sum are '
                 'modelled as the sum of score x count (the driver cross-checks against the table model of C12)',
                 'highest averages: the sorted list with bisect re-insertion is modelled as a pool (as in C01)',
@@ -945,7 +982,22 @@ def shrink_candidates(case):
     return []
 
 
-TECHNIQUE = ('Lean 4 proofs of house and vote monotonicity of the highest-averages loop and of winner monotonicity of the '
-             'additive, Bucklin, Copeland and minimax rules (unbounded) + differential correspondence of both elections of every pair')
-LEVEL_TEXT = ''
-LEVEL_NOTE = ''
+TECHNIQUE = ('Lean 4 proofs (unbounded) of house and vote monotonicity of the highest-averages loop (simulation / counting argument on the '
+             'loop invariant) and of winner monotonicity of plurality, the five generated positional scorers, approval, score-sum, Bucklin, '
+             'Copeland and minimax under single-unit lifts and new ballots + translated divisor and rank-score leaves + differential '
+             'correspondence of both elections of every generated pair (and of the move itself) + an independent oracle of the relation')
+LEVEL_TEXT = ('Both halves of C17 are theorems about the executable models the driver runs. Divisor rules: adding a seat never lowers any '
+              "party's individually awarded seats and more votes for one party never lower its own, for ALL vote vectors, previous gains, caps "
+              'and ties (no tie-freeness premise), for every positive non-decreasing divisor sequence, instantiated for the five divisors '
+              'regenerated from divisor.py. Winner rules: for all profiles of well-formed ballots, if the one-seat result is [w] then it is still '
+              '[w] after one unit of one ballot is replaced by the ballot with w lifted (approved / scored higher) or after an admissible new '
+              'ballot: plurality, Borda/Dowdall/Geometric/ModifiedBorda/FixedTop (score lists regenerated from rankscore.py and proved '
+              'non-increasing), approval, score-sum, Bucklin, Copeland (first and second order) and minimax (three scorers) on the ballot level '
+              'and on the pairwise-matrix level. Schulze is modelled and checked by correspondence + oracle only. The models are tied to /repo by '
+              'running both elections of every pair through votelib and the Lean driver, which also re-applies the move.')
+LEVEL_NOTE = ('Trusted: Lean kernel + propext/Classical.choice/Quot.sound; translate.py for divisors and rank scorers; the correspondence harness '
+              '(bounded by its generator: <=5 parties / <=4 candidates, exhaustive small scopes in the thorough tier); pool abstraction of the '
+              'highest-averages sorted list; frozenset iteration order modelled as ascending ids. Not proved: Schulze; default Bucklin on '
+              'profiles with shared ranks. Reading decisions (DESIGN 7/C17): a lift re-inserts w as a rank of its own (joining a shared rank is '
+              'not admissible: false for non-convex score sequences); new ballots name existing candidates only (Borda rescales otherwise); '
+              'bullet ballots for Bucklin/Copeland/minimax/Schulze.')
